@@ -124,6 +124,12 @@ def handle (line : String) : String :=
       let (pts, c) ← readV3Ints c n
       if !c.atEnd then none
       pure (showB (isCompleteResidueSystem S ⟨D, P, Pinv, Q, Qinv⟩ pts.toList))
+    | "centring" =>
+      let (name, c) ← c.str?
+      if !c.atEnd then none
+      match centringMatrix name with
+      | none => pure "none"
+      | some m => pure (showM3Rat m)
     | "framecheck" =>
       let (S, c) ← readM3Int c
       let (D, c) ← readM3Int c
@@ -140,7 +146,7 @@ def handle (line : String) : String :=
     | "ptables" =>
       let ⟨_, _, _, T, c⟩ ← readPTables c
       if !c.atEnd then none
-      pure (showB T.wf)
+      pure (showB T.wf ++ showB T.wfSmall)
     | "frame" =>
       let (S, c) ← readM3Int c
       if !c.atEnd then none
